@@ -697,3 +697,14 @@ Lemma pads_aligned : forall ps, length (pads ps) = length ps /\ aligned ps (pads
 Proof.
   intro ps. unfold pads. split; [apply pads_aux_length|]. apply pads_aux_aligned. discriminate.
 Qed.
+
+(* ------------------------------------------------------------------ *)
+(* histories of WriteFile on one path                                  *)
+
+Lemma file_history : forall cls old fs f,
+  valid_names cls f = true -> plain_docs cls f = true -> byte_values f = true ->
+  read_file (write_files cls old (fs ++ [f])) = Ok f.
+Proof.
+  intros cls old fs f Hn Hd Hv. unfold write_files, read_file. rewrite fold_left_app.
+  cbn [fold_left]. unfold write_file. apply read_write; assumption.
+Qed.
